@@ -184,11 +184,11 @@ func renderLang(r *hx.Rand, eco string, v langVer, variants bool) string {
 		case -4:
 			b.WriteString(pickV(r, variants, ".dev", "dev", "-dev", "_dev") + v.num)
 		case -3:
-			b.WriteString(pickV(r, variants, "a", ".a", "-a.", "_a") + v.num)
+			b.WriteString(pickV(r, variants, "a", ".a", "-a.", "_a", "alpha", "-alpha.") + v.num)
 		case -2:
-			b.WriteString(pickV(r, variants, "b", ".b", "-b", "_b_") + v.num)
+			b.WriteString(pickV(r, variants, "b", ".b", "-b", "_b_", "beta", ".beta.") + v.num)
 		case -1:
-			b.WriteString(pickV(r, variants, "rc", "c", ".rc", "pre", "-rc.") + v.num)
+			b.WriteString(pickV(r, variants, "rc", "c", ".rc", "pre", "-rc.", "preview", "-preview-") + v.num)
 		case 1:
 			b.WriteString(pickV(r, variants, ".post", "post", "-", "-r", ".rev") + v.num)
 		}
